@@ -9,6 +9,7 @@ import (
 	"context"
 	"fmt"
 	"math/rand"
+	"reflect"
 
 	"github.com/samsarahq/thunder/graphql"
 	"github.com/samsarahq/thunder/graphql/introspection"
@@ -18,6 +19,8 @@ import (
 	"verifharness/internal/verzoo/f0"
 	"verifharness/internal/verzoo/f1"
 	"verifharness/internal/verzoo/f2"
+	"verifharness/internal/verzoo/f3"
+	"verifharness/internal/verzoo/f4"
 	"verifharness/internal/verzoo/u1"
 	"verifharness/internal/verzoo/u2"
 )
@@ -26,7 +29,8 @@ import (
 type Feat struct {
 	Item   int `json:"item"`   // Query.item: 1 returns *Item (nullable), 2 returns Item (non-null)
 	Id     int `json:"id"`     // argument id of item: 1 optional (*int64), 2 required (int64)
-	Filter int `json:"filter"` // argument filter of item (optional *ItemFilter): 1 {min}, 2 {min!}, 3 {min, max}
+	Filter int `json:"filter"` // argument filter of item (optional *ItemFilter): 1 {min}, 2 {min!}, 3 {min, max}, 4 {min, ids: [int!]}, 5 {min, ids: [int]}
+	Ids    int `json:"ids"`    // argument ids of item: 1 []int64, 2 []*int64
 	KindA  int `json:"kinda"`  // argument kind of item: 1 optional (*Kind)
 	Name   int `json:"name"`   // Item.name: 1 string (non-null), 2 *string
 	Kind   int `json:"kind"`   // enum Kind and Item.kind: 1 values {A,B}, 2 values {A,B,C}
@@ -36,19 +40,18 @@ type Feat struct {
 	Items  int `json:"items"`  // Query.items: 1 []*Item, 2 []Item
 }
 
-var ranges = map[string]int{"item": 3, "id": 3, "filter": 4, "kinda": 2, "name": 3, "kind": 3, "tags": 3, "any": 3, "count": 3, "items": 3}
 
 // Random draws a feature vector; consistent() repairs dependencies (an argument needs its field, the
 // kind argument and Item.kind need the enum, a version needs at least one root field).
 func Random(r *rand.Rand) Feat {
-	f := Feat{Item: r.Intn(3), Id: r.Intn(3), Filter: r.Intn(4), KindA: r.Intn(2), Name: r.Intn(3), Kind: r.Intn(3), Tags: r.Intn(3),
+	f := Feat{Item: r.Intn(3), Id: r.Intn(3), Filter: r.Intn(6), Ids: r.Intn(3), KindA: r.Intn(2), Name: r.Intn(3), Kind: r.Intn(3), Tags: r.Intn(3),
 		Any: r.Intn(3), Count: r.Intn(3), Items: r.Intn(3)}
 	return f.Consistent()
 }
 
 func (f Feat) Consistent() Feat {
 	if f.Item == 0 {
-		f.Id, f.Filter, f.KindA = 0, 0, 0
+		f.Id, f.Filter, f.KindA, f.Ids = 0, 0, 0, 0
 	}
 	if f.Kind == 0 {
 		f.KindA = 0
@@ -61,13 +64,15 @@ func (f Feat) Consistent() Feat {
 
 // Mutate changes one component (a version differs from its predecessor by little).
 func (f Feat) Mutate(r *rand.Rand) Feat {
-	switch r.Intn(10) {
+	switch r.Intn(11) {
+	case 10:
+		f.Ids = r.Intn(3)
 	case 0:
 		f.Item = r.Intn(3)
 	case 1:
 		f.Id = r.Intn(3)
 	case 2:
-		f.Filter = r.Intn(4)
+		f.Filter = r.Intn(6)
 	case 3:
 		f.KindA = r.Intn(2)
 	case 4:
@@ -86,122 +91,46 @@ func (f Feat) Mutate(r *rand.Rand) Feat {
 	return f.Consistent()
 }
 
-// regItem registers Query.item with argument struct A and result R.
-func regItem[A any, R any](q *schemabuilder.Object) {
-	q.FieldFunc("item", func(ctx context.Context, args A) R { var r R; return r })
-}
-
-func regItemFor[R any](q *schemabuilder.Object, f Feat) error {
-	key := fmt.Sprintf("%d%d%d", f.Id, f.Filter, f.KindA)
-	switch key {
-	case "000":
-		q.FieldFunc("item", func(ctx context.Context) R { var r R; return r })
-	case "100":
-		regItem[struct{ Id *int64 }, R](q)
-	case "200":
-		regItem[struct{ Id int64 }, R](q)
-	case "010":
-		regItem[struct{ Filter *f0.ItemFilter }, R](q)
-	case "020":
-		regItem[struct{ Filter *f1.ItemFilter }, R](q)
-	case "030":
-		regItem[struct{ Filter *f2.ItemFilter }, R](q)
-	case "110":
-		regItem[struct {
-			Id     *int64
-			Filter *f0.ItemFilter
-		}, R](q)
-	case "120":
-		regItem[struct {
-			Id     *int64
-			Filter *f1.ItemFilter
-		}, R](q)
-	case "130":
-		regItem[struct {
-			Id     *int64
-			Filter *f2.ItemFilter
-		}, R](q)
-	case "210":
-		regItem[struct {
-			Id     int64
-			Filter *f0.ItemFilter
-		}, R](q)
-	case "220":
-		regItem[struct {
-			Id     int64
-			Filter *f1.ItemFilter
-		}, R](q)
-	case "230":
-		regItem[struct {
-			Id     int64
-			Filter *f2.ItemFilter
-		}, R](q)
-	case "001":
-		regItem[struct{ Kind *base.Kind }, R](q)
-	case "101":
-		regItem[struct {
-			Id   *int64
-			Kind *base.Kind
-		}, R](q)
-	case "201":
-		regItem[struct {
-			Id   int64
-			Kind *base.Kind
-		}, R](q)
-	case "011":
-		regItem[struct {
-			Filter *f0.ItemFilter
-			Kind   *base.Kind
-		}, R](q)
-	case "021":
-		regItem[struct {
-			Filter *f1.ItemFilter
-			Kind   *base.Kind
-		}, R](q)
-	case "031":
-		regItem[struct {
-			Filter *f2.ItemFilter
-			Kind   *base.Kind
-		}, R](q)
-	case "111":
-		regItem[struct {
-			Id     *int64
-			Filter *f0.ItemFilter
-			Kind   *base.Kind
-		}, R](q)
-	case "121":
-		regItem[struct {
-			Id     *int64
-			Filter *f1.ItemFilter
-			Kind   *base.Kind
-		}, R](q)
-	case "131":
-		regItem[struct {
-			Id     *int64
-			Filter *f2.ItemFilter
-			Kind   *base.Kind
-		}, R](q)
-	case "211":
-		regItem[struct {
-			Id     int64
-			Filter *f0.ItemFilter
-			Kind   *base.Kind
-		}, R](q)
-	case "221":
-		regItem[struct {
-			Id     int64
-			Filter *f1.ItemFilter
-			Kind   *base.Kind
-		}, R](q)
-	case "231":
-		regItem[struct {
-			Id     int64
-			Filter *f2.ItemFilter
-			Kind   *base.Kind
-		}, R](q)
-	default:
-		return fmt.Errorf("no item variant %s", key)
+// regItem registers Query.item returning R with an argument struct assembled from the feature vector.
+func regItem(q *schemabuilder.Object, f Feat, ret reflect.Type) error {
+	var fs []reflect.StructField
+	add := func(name string, t reflect.Type) { fs = append(fs, reflect.StructField{Name: name, Type: t}) }
+	switch f.Id {
+	case 1:
+		add("Id", reflect.TypeOf((*int64)(nil)))
+	case 2:
+		add("Id", reflect.TypeOf(int64(0)))
 	}
+	switch f.Filter {
+	case 1:
+		add("Filter", reflect.TypeOf((*f0.ItemFilter)(nil)))
+	case 2:
+		add("Filter", reflect.TypeOf((*f1.ItemFilter)(nil)))
+	case 3:
+		add("Filter", reflect.TypeOf((*f2.ItemFilter)(nil)))
+	case 4:
+		add("Filter", reflect.TypeOf((*f3.ItemFilter)(nil)))
+	case 5:
+		add("Filter", reflect.TypeOf((*f4.ItemFilter)(nil)))
+	}
+	if f.KindA == 1 {
+		add("Kind", reflect.TypeOf((*base.Kind)(nil)))
+	}
+	switch f.Ids {
+	case 1:
+		add("Ids", reflect.TypeOf([]int64(nil)))
+	case 2:
+		add("Ids", reflect.TypeOf([]*int64(nil)))
+	}
+	ctxT := reflect.TypeOf((*context.Context)(nil)).Elem()
+	in := []reflect.Type{ctxT}
+	if len(fs) > 0 {
+		in = append(in, reflect.StructOf(fs))
+	}
+	fn := reflect.MakeFunc(reflect.FuncOf(in, []reflect.Type{ret}, false), func([]reflect.Value) []reflect.Value {
+		return []reflect.Value{reflect.Zero(ret)}
+	})
+	q.FieldFunc("item", fn.Interface())
 	return nil
 }
 
@@ -241,11 +170,11 @@ func Build(f Feat) (schema *graphql.Schema, err error) {
 	}
 	switch f.Item {
 	case 1:
-		if err := regItemFor[*base.Item](q, f); err != nil {
+		if err := regItem(q, f, reflect.TypeOf((*base.Item)(nil))); err != nil {
 			return nil, err
 		}
 	case 2:
-		if err := regItemFor[base.Item](q, f); err != nil {
+		if err := regItem(q, f, reflect.TypeOf(base.Item{})); err != nil {
 			return nil, err
 		}
 	}
